@@ -22,7 +22,7 @@ BASIC = Profile(new=10, edit_refresh=10, push=10, pop=10, goto=6, float=6, sink=
 REORDER = Profile(new=6, edit_refresh=8, push=14, pop=12, goto=8, float=10, sink=10, delete=5, hide=4, unhide=4,
                   commit=4, rename=1, undo=2, invalid=2, upstream=3)
 UNDO = Profile(new=6, edit_refresh=6, push=8, pop=8, float=3, sink=3, delete=3, hide=2, unhide=2, rename=2,
-               undo=14, redo=10, reset=6, gcommit=1.5, commit=1, invalid=1)
+               undo=14, redo=10, reset=6, gcommit=1.5, commit=1, invalid=1, extmods=2)
 REPAIR = Profile(new=8, edit_refresh=8, push=5, pop=6, delete=2, hide=2, repair=10, gcommit=8, gamend=4, greset=9,
                  gmerge=1, undo=1, commit=1, uncommit=1, inspect=1)
 COMMIT = Profile(new=10, edit_refresh=8, push=6, pop=6, commit=12, uncommit=10, float=3, sink=3, undo=3, redo=2,
@@ -322,6 +322,20 @@ class Chooser:
             return {"c": "repair"}
         if kind == "logclear":
             return {"c": "logclear"}
+        if kind == "extmods":
+            # an external commit on top of the stack, then navigation through the log entry
+            # that records it (undo / redo / reset land ON the "external modifications" entry)
+            m = self.next_meta()
+            seq = [self.edit_cmd(view), {"c": "gcommit", "meta": m, "subj": "x%d external" % m}]
+            k = rng.random()
+            if k < 0.5:
+                seq += [{"c": "undo", "flags": []}, {"c": "redo", "flags": []}]
+            elif k < 0.75:
+                seq += [{"c": "undo", "n": 2, "flags": []}, {"c": "redo", "flags": []}, {"c": "redo", "flags": []}]
+            else:
+                seq += [{"c": "inspect"}, {"c": "undo", "flags": []}, {"c": "reset", "entry": 1, "flags": ["hard"]}]
+            self.pending = seq[1:]
+            return seq[0]
         if kind == "gcommit":
             m = self.next_meta()
             if rng.random() < 0.5:
